@@ -623,9 +623,12 @@ func (e *Engine) lookup(in *ssa.Lookup, x, key Value) Value {
 		}
 		return e.load(e.elemPtr(nil, cells, key.(*Term), isSigned(in.Index.Type()), "string"))
 	case *Map:
+		elemT := in.X.Type().Underlying().(*types.Map).Elem()
+		if v, ok := e.mapLookupIte(xv, key, elemT, in.CommaOk); ok {
+			return v
+		}
 		en := e.mapFind(xv, key)
 		var v Value
-		elemT := in.X.Type().Underlying().(*types.Map).Elem()
 		if en != nil {
 			v = copyVal(en.V)
 		} else {
@@ -637,6 +640,38 @@ func (e *Engine) lookup(in *ssa.Lookup, x, key Value) Value {
 		return v
 	}
 	panic(fmt.Sprintf("lookup on %T", x))
+}
+
+// mapLookupIte answers a lookup with a symbolic key in a scalar-valued map without forking:
+// value = ite(k==k1, v1, ite(k==k2, v2, ... zero)), ok = (k==k1) ∨ (k==k2) ∨ ...
+func (e *Engine) mapLookupIte(m *Map, key Value, elemT types.Type, commaOk bool) (Value, bool) {
+	if m == nil || !isScalar(elemT) {
+		return nil, false
+	}
+	kt, isT := key.(*Term)
+	if !isT || kt.Op == OpConst {
+		return nil, false
+	}
+	val := e.zero(elemT).(*Term)
+	found := e.ts.False
+	// later entries never duplicate earlier keys (insertion checks), so order is irrelevant
+	for i := len(m.Entries) - 1; i >= 0; i-- {
+		en := m.Entries[i]
+		if en.Deleted {
+			continue
+		}
+		ev, ok := en.V.(*Term)
+		if !ok {
+			return nil, false
+		}
+		eq := e.equalVals(m.KeyT, en.K, key)
+		val = e.ts.Ite(eq, ev, val)
+		found = e.ts.BOr(found, eq)
+	}
+	if commaOk {
+		return Tuple{val, found}, true
+	}
+	return val, true
 }
 
 func (e *Engine) mapUpdate(m *Map, key, val Value) {
